@@ -21,7 +21,7 @@ def _shape(o):
 
 def _dtype(o):
     d = o.get("dense") if isinstance(o, dict) else None
-    return d.get("dtype") if isinstance(d, dict) else None
+    return d.get("dtype") if isinstance(d, dict) else (o.get("dtype") if isinstance(o, dict) else None)
 
 
 def classify(pid, name, case, msg):
@@ -43,6 +43,11 @@ def classify(pid, name, case, msg):
                 and _fmt(ops[0]) in ("gcxs", "dok") and _fmt(ops[1]) in ("coo", "gcxs", "dok") and _fmt(ops[1]) != _fmt(ops[0])
                 and msg.startswith("the call returned an inconsistent") and ("'coords'" in msg)):
             return "F-c01-inplace-other-format"
+        # out= / in-place: the request is validated by calling the ufunc on UNINITIALISED one-element arrays; integer power then raises whenever the
+        # leftover "exponent" is negative (depends on the allocator's leftovers: sporadic)
+        if (op == "x **= y" and len(ops) == 2 and _dtype(ops[0]) and _dtype(ops[0])[0] in "iu" and (_dtype(ops[1]) or "")[:1] in ("i", "u")
+                and "raised ValueError: Integers to negative integer powers are not allowed" in msg):
+            return "F-c01-out-test-call-uninitialised"
         if op in ("divmod(x, y)", "np.modf(x)") and "AttributeError: 'tuple' object has no attribute 'ndim'" in msg:
             return "F-c01-multi-output-ufunc"
     if pid == "C02":
